@@ -25,6 +25,7 @@ class VClock:
     def __init__(self) -> None:
         self.now = 1000.0
         self.sleeps: list[float] = []
+        self.sleep_at: list[float] = []
 
     def monotonic(self) -> float:
         return self.now
@@ -34,6 +35,7 @@ class VClock:
 
     def sleep(self, s: float) -> None:
         self.sleeps.append(s)
+        self.sleep_at.append(self.now)
         if s == s and 0 < s < 1e9:
             self.now += s
 
